@@ -14,6 +14,7 @@ RULE = ("every ordered pair of Pauli strings on <=3 qubits x operations {*,+,-},
         "non-trivial = reference result is a non-zero matrix and at least one operand is a non-constant operator "
         "(for products of terms additionally counted: pairs with an anticommuting factor); distinct = canonical case json")
 RULE += ' Also: terms that tie on support and coefficient in every order, like coefficients inside one hash bucket that differ by more than the tolerance, rounding residues (0.1+0.2-0.3) under simplify.'
+RULE += ' Round 5: the same small coefficient (1e-7..1e-3) on different strings is unequal; operators against plain numbers on either side (zero-coefficient strings, empty sum); operands of 1e-12..5e-9 times / divided by 1e8..1e9 factors.'
 ASSUMPTIONS = ["numpy dense arithmetic is correct", "PauliTerm.coefficient/.operations and PauliSum.terms are the public observables of an operator",
                "coefficients are far (>=0.25) from the library's 1e-8 tolerance edge"]
 BOUNDS = {"quick": {"qubits": 3, "strings": "16 on {0,1} + 4 on {2} (all ordered pairs) + 64x64 products", "sum_terms": 2, "powers": "0..4 (unit-modulus coefficients: 2..8)"},
